@@ -1,4 +1,97 @@
 import Reduino.Fw.ListHeap
+import Reduino.Lemmas.C09
+/-
+  C09 — Generated firmware is memory-safe and does not leak across loop() passes.
+  Heap model of the emitted list helpers.  Main theorem: in the OWNED discipline (lists declared once from a maker,
+  then only append / remove / in-bounds indexing / len / assignment from another declared list) no history ever
+  produces a memory error, every live block is owned by exactly one list, and the number of live blocks equals the
+  number of non-empty lists — hence constant from pass to pass whenever the lists' emptiness pattern is.
+  The forms outside the discipline are decided by counterexample (known findings K09a, K09b).
+-/
 namespace Reduino.Props.C09
-theorem stub : True := trivial
+open Reduino.Fw.Heap
+
+def declared (h : Heap) (x : String) : Prop := x ∈ h.vars.map (·.1)
+
+/-- heap invariant: names distinct; every list's buffer is a live block of exactly its size (nullptr iff empty);
+    no block is shared; every live block is owned -/
+def Inv (h : Heap) : Prop :=
+  (h.vars.map (·.1)).Nodup ∧
+  (∀ x l, (x, l) ∈ h.vars →
+    match l.data with
+    | none => l.size = 0
+    | some id => 0 < l.size ∧ ∃ b, h.blocks[id]? = some b ∧ b.alive = true ∧ b.cells.length = l.size) ∧
+  (∀ x y lx ly id, (x, lx) ∈ h.vars → (y, ly) ∈ h.vars → lx.data = some id → ly.data = some id → x = y) ∧
+  liveBlocks h = (h.vars.filter (fun p => p.2.data.isSome)).length
+
+/-- the operations of the owned discipline, with the side conditions Python itself guarantees
+    (a name is declared before use, an index that raises no IndexError) -/
+def Owned (h : Heap) : Op → Prop
+  | .declMake x _ => ¬ declared h x
+  | .declCopy _ _ => False
+  | .assignTemp _ _ => False
+  | .assignVar x y => declared h x ∧ declared h y
+  | .append x _ => declared h x
+  | .remove x _ => declared h x
+  | .get x i => declared h x ∧ -(Int.ofNat (lookup h x).size) ≤ i ∧ i < Int.ofNat (lookup h x).size
+  | .len x => declared h x
+
+theorem inv_init : Inv {} := by
+  sorry
+
+/-- one owned operation: no memory error, invariant kept -/
+theorem owned_step_safe (h : Heap) (op : Op) (hi : Inv h) (ho : Owned h op) :
+    ∃ o, step h op = .ok o ∧ Inv o.heap := by
+  sorry
+
+/-- a history of owned operations (each admissible in the state it meets) never errs and keeps the invariant -/
+def OwnedRun : Heap → List Op → Prop
+  | _, [] => True
+  | h, op :: rest => Owned h op ∧ ∀ o, step h op = .ok o → OwnedRun o.heap rest
+
+theorem owned_run_safe (h : Heap) (ops : List Op) (hi : Inv h) (ho : OwnedRun h ops) :
+    ∃ h', run h ops = .ok h' ∧ Inv h' := by
+  sorry
+
+/-- under the invariant the live heap is exactly one block per non-empty list: constant across passes whenever the
+    set of non-empty lists is -/
+theorem live_is_nonempty_lists (h : Heap) (hi : Inv h) :
+    liveBlocks h = (h.vars.filter (fun p => p.2.size ≠ 0)).length := by
+  sorry
+
+/-- `get` returns the cell the index denotes (negative indices count from the end) -/
+theorem get_value (h : Heap) (x : String) (i : Int) (hi : Inv h) (ho : Owned h (.get x i)) :
+    ∃ o v, step h (.get x i) = .ok o ∧ o.value = some v ∧ o.heap.blocks = h.blocks ∧ o.heap.vars = h.vars := by
+  sorry
+
+/-! ### outside the discipline -/
+
+/-- first copy `b = a` shares the buffer: append through `a` frees it, reading `b` is a use after free (K09a) -/
+theorem alias_use_after_free_counterexample :
+    (run {} [.declMake "a" [1, 2, 3], .declCopy "b" "a", .append "a" 1, .get "b" 0]).toOption = none ∧
+    (do let h ← run {} [.declMake "a" [1, 2, 3], .declCopy "b" "a", .append "a" 1]; step h (.get "b" 0)).toOption.isNone = true := by
+  sorry
+
+/-- … and a second mutation through the alias frees the block twice -/
+theorem alias_double_free_counterexample :
+    (match run {} [.declMake "a" [1, 2, 3], .declCopy "b" "a", .append "a" 1, .append "b" 2] with
+     | .error e => e = .useAfterFree ∨ e = .doubleFree
+     | .ok _ => False) := by
+  sorry
+
+/-- re-assignment from a literal leaks the temporary: one more live block per execution (K09b) -/
+theorem temp_leak_counterexample :
+    ((run {} [.declMake "a" [1, 2, 3]]).toOption.map liveBlocks = some 1) ∧
+    ((run {} [.declMake "a" [1, 2, 3], .assignTemp "a" [4, 5, 6]]).toOption.map liveBlocks = some 2) ∧
+    ((run {} [.declMake "a" [1, 2, 3], .assignTemp "a" [4, 5, 6], .assignTemp "a" [4, 5, 6]]).toOption.map liveBlocks = some 3) := by
+  sorry
+
+/-- a list declared inside loop() is re-made every pass and never freed -/
+theorem loop_local_leak_counterexample :
+    (run {} [.declMake "t" [1], .declMake "t" [1], .declMake "t" [1]]).toOption.map liveBlocks = some 3 := by
+  sorry
+
+example : OwnedRun {} [.declMake "a" [1, 2], .append "a" 3, .get "a" (-1), .remove "a" 1] := by
+  sorry
+
 end Reduino.Props.C09
